@@ -298,6 +298,9 @@ class PhasePredictor(QTable):
         table = []
         with f:
             while (line := f.readline()) :
+                if not line.strip():
+                    continue  # e.g. an empty line at the end of the file
+
                 psr, _, _, mjd_mid, dm, *_ = line.split()
                 rphase, f0, obs, span, ncoeff, freq, *_ = f.readline().split()
                 r_int, _, r_frac = rphase.partition(".")
